@@ -51,9 +51,15 @@ FRAME = (Fraction(0), Fraction(0), 0)
 IDENT = (Fraction(0), Fraction(0), 0)
 
 
+_CUR = _CC.setdefault(FRAME, ({}, {}))     # per frame: grid point -> Coordinate, (lon, lat) floats -> grid point
+
+
 def set_frame(fr):
-    global FRAME
-    FRAME = (Fraction(fr[0]), Fraction(fr[1]), int(fr[2]))
+    global FRAME, _CUR
+    fr = (Fraction(fr[0]), Fraction(fr[1]), int(fr[2]))
+    if fr != FRAME:
+        FRAME = fr
+        _CUR = _CC.setdefault(FRAME, ({}, {}))
 
 
 def val(p):
@@ -63,8 +69,7 @@ def val(p):
 
 
 def C(p):
-    key = (p, FRAME)
-    c = _CC.get(key)
+    c = _CUR[0].get(p)
     if c is None:
         x, y = val(p)
         xf, yf = float(x), float(y)
@@ -73,11 +78,16 @@ def C(p):
         c = Coordinate(xf, yf)
         if Fraction(c.longitude) != x or Fraction(c.latitude) != y:
             raise Inexact('Coordinate() changed the value')
-        _CC[key] = c
+        _CUR[0][p] = c
+        _CUR[1][(xf, yf)] = p
     return c
 
 
 def of_coord(c):
+    if c.z is None:
+        p = _CUR[1].get((c.longitude, c.latitude))      # the float pair of a grid point already built (exact)
+        if p is not None:
+            return p
     bx, by, s = FRAME
     kx, ky = (Fraction(c.longitude) - bx) * (1 << s), (Fraction(c.latitude) - by) * (1 << s)
     if kx.denominator != 1 or ky.denominator != 1 or c.z is not None:
